@@ -184,6 +184,10 @@ impl Exec {
 }
 
 thread_local! {
+    /// per coroutine: a panic of the subject / a probe is unwinding this coroutine's stack (set by the panic hook,
+    /// cleared by `guarded`). Destructors that run during such an unwinding may contain several atomic operations:
+    /// they remain scheduling points. (Only the scheduler's own cancellation unwinds without yielding.)
+    pub(crate) static UNWINDING: RefCell<[bool; MAXT]> = const { RefCell::new([false; MAXT]) };
     pub(crate) static EXEC: RefCell<Option<Exec>> = const { RefCell::new(None) };
     pub(crate) static IN_CO: Cell<bool> = const { Cell::new(false) };
     pub(crate) static CANCEL: Cell<bool> = const { Cell::new(false) };
@@ -201,13 +205,25 @@ pub fn active() -> bool {
 #[inline]
 #[allow(deprecated)]
 pub(crate) fn point() {
-    if active() && !std::thread::panicking() {
-        // allocation accounting (C15) only covers subject code: not the scheduler that runs while we are suspended
-        let t = crate::alloc::track(false);
-        generator::yield_with(());
-        crate::alloc::track(t);
+    // (no yield while the scheduler cancels an abandoned execution; a panic of the subject / a probe that unwinds
+    // a coroutine does NOT suppress scheduling points - neither in that coroutine's destructors nor in the others)
+    if active() {
+        if !CANCEL.with(|c| c.get()) {
+            // allocation accounting (C15) only covers subject code: not the scheduler that runs while we are suspended
+            let t = crate::alloc::track(false);
+            generator::yield_with(());
+            crate::alloc::track(t);
+        }
         if CANCEL.with(|c| c.get()) {
-            std::panic::resume_unwind(Box::new(CancelToken));
+            // the execution is abandoned. A coroutine that is in the middle of unwinding a subject panic (we are
+            // inside a destructor) cannot take a second panic: it finishes that unwinding without further
+            // scheduling points and `guarded` raises the cancellation once the first panic has been caught
+            let me = cur_tid().min(MAXT - 1);
+            if !UNWINDING.with(|u| u.borrow()[me]) {
+                // (from now on this coroutine is unwinding: destructors that touch atomics must not raise again)
+                UNWINDING.with(|u| u.borrow_mut()[me] = true);
+                std::panic::resume_unwind(Box::new(CancelToken));
+            }
         }
     }
 }
@@ -504,7 +520,7 @@ pub fn note(x: u64) {
 /// A scheduling point without an atomic operation (harness probes use it to let other threads run in the
 /// middle of a call of the wrapped iterator).
 pub fn yield_point() {
-    if !active() || std::thread::panicking() {
+    if !active() {
         return;
     }
     point();
@@ -579,7 +595,7 @@ pub fn end_call() -> CallInfo {
 }
 
 thread_local! {
-    static PANIC_DEPTH: Cell<u32> = const { Cell::new(0) };
+    static PANIC_DEPTH: RefCell<[u32; MAXT]> = const { RefCell::new([0; MAXT]) };
     static LAST_PANIC: RefCell<String> = const { RefCell::new(String::new()) };
 }
 
@@ -599,6 +615,7 @@ pub(crate) fn install_quiet_hook() {
     static ONCE: Once = Once::new();
     ONCE.call_once(|| {
         std::panic::set_hook(Box::new(|info| {
+            let _nt = crate::alloc::NoTrack::new();
             let loc = info.location().map(|l| format!("{}:{}", l.file(), l.line())).unwrap_or_default();
             let msg = if let Some(s) = info.payload().downcast_ref::<&str>() {
                 s.to_string()
@@ -609,10 +626,15 @@ pub(crate) fn install_quiet_hook() {
             };
             // a second panic before the first one was caught (e.g. a panic in a destructor during unwinding), or a
             // std precondition check: the process is about to abort
+            let me = if active() { cur_tid().min(MAXT - 1) } else { MAXT - 1 };
             let depth = PANIC_DEPTH.with(|d| {
-                d.set(d.get() + 1);
-                d.get()
+                let mut d = d.borrow_mut();
+                d[me] += 1;
+                d[me]
             });
+            if active() {
+                UNWINDING.with(|u| u.borrow_mut()[me] = true);
+            }
             if depth >= 2 || msg.contains("unsafe precondition") {
                 let ctx = ABORT_CONTEXT.lock().map(|g| g.clone()).unwrap_or_default();
                 eprintln!("\nE1-ABORT-MARK {ctx}\tpanic={msg} @ {loc}");
@@ -633,7 +655,12 @@ pub fn guarded<R>(f: impl FnOnce() -> R) -> Result<R, String> {
             if p.is::<CancelToken>() {
                 std::panic::resume_unwind(p);
             }
-            PANIC_DEPTH.with(|d| d.set(0));
+            let me = if active() { cur_tid().min(MAXT - 1) } else { MAXT - 1 };
+            PANIC_DEPTH.with(|d| d.borrow_mut()[me] = 0);
+            UNWINDING.with(|u| u.borrow_mut()[me] = false);
+            if active() && CANCEL.with(|c| c.get()) {
+                std::panic::resume_unwind(Box::new(CancelToken));
+            }
             let m = LAST_PANIC.with(|p| p.borrow().clone());
             Err(m)
         }
